@@ -3,6 +3,7 @@
 -/
 import Gmars.Proofs.Abs
 import Gmars.Proofs.SpecRotate
+import Gmars.Proofs.Sched
 
 namespace Gmars.Props.C12
 open Gmars Gmars.Spec
@@ -56,5 +57,23 @@ theorem cycle_rotate (k : Nat) (s : Api) (h : s.WFs) :
 theorem run_rotate (k fuel : Nat) (s : Api) (h : s.WFs) :
     ((rotApi k s).run fuel).1 = rotApi k (s.run fuel).1 :=
   Spec.run_rotate k fuel s h
+
+/-- `run_rotate` on the model of the Go code: take a battle `s₁` and the same battle `s₂` placed
+    `k` cells further around the core (`s₂` is related to the rotated reference state). Running
+    both to completion never panics, both end related to the reference final state and to its
+    rotation by `k` respectively — same survivors, same cycle count, final core and queues rotated. -/
+theorem model_run_rotate {s₁ s₂ : Sim} {a : Api} (k : Nat) (ha : a.WFs)
+    (p₁ : Pre s₁) (p₂ : Pre s₂) (r₁ : Rel s₁ a) (r₂ : Rel s₂ (rotApi k a)) :
+    ∃ s₁' s₂', s₁.runLoop (s₁.maxCycles.toNat + 2) = .ok (s₁', true) ∧
+      s₂.runLoop (s₂.maxCycles.toNat + 2) = .ok (s₂', true) ∧
+      Rel s₁' (a.run (a.C + 2)).1 ∧ Rel s₂' (rotApi k (a.run (a.C + 2)).1) ∧
+      s₁'.results = s₂'.results := by
+  obtain ⟨s₁', e₁, rel₁, res₁⟩ := Gmars.run_refines p₁.wf p₁.m32 p₁.rl p₁.wl r₁
+  obtain ⟨s₂', e₂, rel₂, res₂⟩ := Gmars.run_refines p₂.wf p₂.m32 p₂.rl p₂.wl r₂
+  have hC : (rotApi k a).C = a.C := rfl
+  rw [hC, Spec.run_rotate k (a.C + 2) a ha] at rel₂ res₂
+  refine ⟨s₁', s₂', e₁, e₂, rel₁, rel₂, ?_⟩
+  rw [res₁, res₂]
+  simp [rotApi, rotSW, List.map_map, Function.comp_def]
 
 end Gmars.Props.C12
